@@ -1,6 +1,7 @@
 package sim
 
 import (
+	"errors"
 	"fmt"
 	"io"
 	"strings"
@@ -21,13 +22,15 @@ type c13Round struct {
 	LongOutage        bool     `json:"long_outage,omitempty"`
 	OnTick            bool     `json:"fault_on_a_keepalive_tick,omitempty"`
 	LostInPostConnect bool     `json:"new_session_lost_while_post_connect_runs,omitempty"`
-	AfterFailure      int      `json:"server_after_auth_failure,omitempty"` // 1 = ends the stream and closes, 2 = resets the connection
+	AfterFailure      int      `json:"server_after_auth_failure,omitempty"`    // 1 = ends the stream and closes, 2 = resets the connection
+	HookFails         int      `json:"post_resume_hook_fails_first,omitempty"` // the application's PostResumeHook refuses the first k sessions of this round
 }
 
 type c13Scenario struct {
 	Client        ClientOpts `json:"client"`
 	Rounds        []c13Round `json:"rounds"`
 	TLS           bool       `json:"tls_required,omitempty"`
+	ResumeHook    bool       `json:"post_resume_hook_set,omitempty"`
 	PostConnectMs int        `json:"post_connect_callback_takes_ms,omitempty"` // the application's post-connect callback is slow: the new session can be lost while it still runs
 	LatencyNs     int64      `json:"latency_ns"`
 	Seg           int        `json:"segmentation"`
@@ -37,11 +40,11 @@ type c13Scenario struct {
 func init() {
 	register(&PropDef{
 		ID:    "C13",
-		Rule:  "scenario = a StreamManager running a real client (SM on/off) through 1-4 rounds of: termination of the established session (FIN / RST / graceful </stream:stream> / stream error at a drawn instant), then 0-6 failing attempts (connection refused, dial timeout, accept-then-reset, negotiation cut at header/auth/bind) or a permanent failure (SASL <failure/>), then a server that accepts again and offers resumption or not; finally Stop; non-trivial = at least one session was re-established or a permanent error was reached; distinct = distinct (scenario hash, schedule hash)",
+		Rule:  "scenario = a StreamManager running a real client (SM on/off) through 1-4 rounds of: termination of the established session (FIN / RST / graceful </stream:stream> / stream error at a drawn instant), then 0-6 failing attempts (connection refused, dial timeout, accept-then-reset, negotiation cut at header/auth/bind) or a permanent failure (SASL <failure/>, after which the server may end the stream or reset the connection), then a server that accepts again and offers resumption or not, with an application PostResumeHook that refuses the first 0-2 sessions of a round; finally Stop; non-trivial = at least one session was re-established or a permanent error was reached; distinct = distinct (scenario hash, schedule hash)",
 		Real:  []string{"xmpp.StreamManager (Run, resume loop, Stop)", "xmpp.backoff", "Client.Connect / Resume incl. start of the receive and keepalive goroutines", "xmpp.NewSession incl. resumption", "ConnError classification"},
 		Stub:  []string{"TCP (simnet) incl. refused / timed-out / reset dials", "XMPP server (scripted model)", "clock (synctest)", "goroutine scheduling (token scheduler)", "math/rand jitter (seeded)"},
 		Run:   runC13,
-		Reach: []string{"c13.reestablished", "c13.permanent_error_reached", "c13.fault_on_keepalive_tick", "c13.lost_during_post_connect", "tls.handshake_complete"},
+		Reach: []string{"c13.reestablished", "c13.permanent_error_reached", "c13.fault_on_keepalive_tick", "c13.lost_during_post_connect", "c13.session_refused_by_resume_hook", "tls.handshake_complete"},
 	})
 }
 
@@ -58,6 +61,7 @@ func runC13(e *Engine, g G, o RunOpt) RunInfo {
 		sc.Client.TLS = TLSCfgRoots
 		sc.Client.TLSMax12 = true
 	}
+	sc.ResumeHook = g.Pct("resume-hook", 30)
 	nr := g.Range("rounds", 1, 4)
 	permanent := false
 	for r := 0; r < nr && !permanent; r++ {
@@ -99,6 +103,12 @@ func runC13(e *Engine, g G, o RunOpt) RunInfo {
 		// the session ends at the very instant a keepalive is due
 		rd.OnTick = g.Pct("fault-on-tick", 15)
 		rd.LostInPostConnect = g.Pct("lost-in-post-connect", 30)
+		if sc.ResumeHook && !permanent && g.Pct("hook-fails", 40) {
+			// the application's hook refuses the new session (it could not restore its own state):
+			// that session must be given up before the next attempt
+			rd.HookFails = 1 + g.N("hook-fails-n", 2)
+			rd.LostInPostConnect = false
+		}
 		sc.Rounds = append(sc.Rounds, rd)
 	}
 	if g.Pct("slow-post-connect", 20) {
@@ -168,6 +178,11 @@ func runC13(e *Engine, g G, o RunOpt) RunInfo {
 				scripts = append(scripts, s)
 			}
 		}
+		for k := 0; k < rd.HookFails; k++ {
+			// one more accepted connection per session the application's hook refuses
+			dialPlan = append(dialPlan, DialAccept)
+			scripts = append(scripts, good(rd.ResumeOK))
+		}
 	}
 	e.Net.DialPlan = func(n int) Dial {
 		if n < len(dialPlan) {
@@ -188,6 +203,7 @@ func runC13(e *Engine, g G, o RunOpt) RunInfo {
 	stopEarly := false
 	var sm *xmpp.StreamManager
 	var lastUp time.Duration
+	hookFailsLeft, refused := 0, 0
 
 	established := func() []*SrvConn {
 		var out []*SrvConn
@@ -254,6 +270,19 @@ func runC13(e *Engine, g G, o RunOpt) RunInfo {
 		if err := w.Create(); err != nil {
 			return
 		}
+		if sc.ResumeHook {
+			w.Client.PostResumeHook = func() error {
+				if hookFailsLeft > 0 {
+					hookFailsLeft--
+					refused++
+					e.Logf("cb.resumehook", "refuses the session (%d so far)", refused)
+					e.Fault("app.post_resume_hook_fails")
+					return errors.New("application: state could not be restored")
+				}
+				e.Logf("cb.resumehook", "ok")
+				return nil
+			}
+		}
 		sm = xmpp.NewStreamManager(w.Client, func(s xmpp.Sender) {
 			postConnects++
 			lastUp = e.Now()
@@ -288,7 +317,8 @@ func runC13(e *Engine, g G, o RunOpt) RunInfo {
 				e.Sleep(lastUp + k*ka - e.Now())
 				e.Probe("c13.fault_on_keepalive_tick")
 			}
-			nEst := len(established())
+			nEst := len(established()) + rd.HookFails
+			hookFailsLeft = rd.HookFails
 			tFault := e.Now()
 			dialsBefore := e.Net.Dials
 			switch rd.Fault {
@@ -325,7 +355,7 @@ func runC13(e *Engine, g G, o RunOpt) RunInfo {
 				break
 			}
 			perm := strings.HasPrefix(rd.Attempts[len(rd.Attempts)-1], "permanent-")
-			budget := time.Duration(len(rd.Attempts)+1)*(180*time.Second+3*time.Duration(sc.Client.ConnectTimeout)*time.Second) + 60*time.Second
+			budget := time.Duration(len(rd.Attempts)+1+rd.HookFails)*(180*time.Second+3*time.Duration(sc.Client.ConnectTimeout)*time.Second) + 60*time.Second
 			if perm {
 				// the loop must end: wait for the failing attempt, then make sure nothing else is tried
 				e.WaitUntilFor("permanent", budget, func() bool { return e.Net.Dials >= dialsBefore+len(rd.Attempts) })
@@ -374,6 +404,11 @@ func runC13(e *Engine, g G, o RunOpt) RunInfo {
 					resumePossible = false
 				}
 			}
+			if rd.HookFails > 0 {
+				// what remains resumable after the client itself has closed a session is not this property's business
+				resumePossible = false
+				e.Probe("c13.session_refused_by_resume_hook")
+			}
 			if resumePossible && cur.Established != "resumed" {
 				e.Violate("C13", "not-resumed-when-possible", "round %d: the server offered resumption but the new session was %s", ri, cur.Established)
 			}
@@ -402,7 +437,7 @@ func runC13(e *Engine, g G, o RunOpt) RunInfo {
 	}
 	est := established()
 	// exactly one new session per termination
-	want := 1 + reestablished
+	want := 1 + reestablished + refused
 	if len(est) != want && len(e.Violations) == 0 && !stopEarly {
 		e.Violate("C13", "sessions-per-loss="+cmp3(len(est), want), "%d sessions were established for %d terminations (+ the first one)", len(est), reestablished)
 	}
@@ -414,8 +449,8 @@ func runC13(e *Engine, g G, o RunOpt) RunInfo {
 			e.Violate("C13", "two-sessions-at-once", "connection #%d was established while #%d was still alive", est[i].Idx, prev.Idx)
 		}
 	}
-	if postConnects != len(est) && len(e.Violations) == 0 && !stopEarly {
-		e.Violate("C13", "postconnect-count="+cmp3(postConnects, len(est)), "PostConnect ran %d times for %d established sessions", postConnects, len(est))
+	if postConnects != len(est)-refused && len(e.Violations) == 0 && !stopEarly {
+		e.Violate("C13", "postconnect-count="+cmp3(postConnects, len(est)-refused), "PostConnect ran %d times for %d established sessions (%d more were refused by the application's resume hook)", postConnects, len(est)-refused, refused)
 	}
 	if stopped && !runReturned {
 		e.Violate("C13", "run-does-not-return", "StreamManager.Run did not return within 2 minutes of Stop()")
